@@ -178,7 +178,14 @@ pub fn format_highres_date(t: f64, offset: Option<i32>) -> String {
     let offset = offset.unwrap_or(0);
     let datetime = Utc.timestamp_opt(t as i64 + offset as i64, 0).unwrap();
     let highres_seconds = format!("{:.9}", t - t.floor())[1..].to_string();
-    let offset_str = format!(" {:+03}{:02}", offset / 3600, (offset / 60) % 60);
+    let sign = if offset < 0 { '-' } else { '+' };
+    let abs_offset = offset.abs();
+    let offset_str = format!(
+        " {}{:02}{:02}",
+        sign,
+        abs_offset / 3600,
+        (abs_offset / 60) % 60
+    );
     format!(
         "{}{}{}",
         datetime.format(DEFAULT_DATE_FORMAT),
